@@ -255,16 +255,15 @@ class GateRun:
                 if "001" not in codes or c.closed:
                     sig = "gate:no-welcome"
             elif k == "refuse464":
-                if "464" not in codes:
-                    sig = "gate:no-464"
-                elif "001" in codes:
+                # "a wrong or missing password closes the connection and creates no user"; the 464 line itself may be
+                # lost to the reset that follows the close (our marker is still unread on the server side)
+                if "001" in codes:
                     sig = "gate:welcome-despite-wrong-password"
                 else:
                     if not c.closed:
-                        # 464 must be followed by the close
                         rest, kind = c.c.read_to_eof(3.0)
                         if kind is None:
-                            sig = "gate:464-not-closed"
+                            sig = "gate:no-464" if "464" not in codes else "gate:464-not-closed"
                         c.closed = kind or c.closed
             elif k in ("no-completion", "433", "cap", "421"):
                 if "001" in codes:
@@ -277,7 +276,8 @@ class GateRun:
             if sig is None and not au.registered and not au.closed and c.closed and k != "quit":
                 sig = "gate:closed-unexpectedly|" + line.split()[0].upper()
             if sig:
-                self.bad(sig, "sequence %s: after %r got %s" % ([t[0] for t in trace], line, codes[:8]))
+                self.bad(sig, "sequence %s: after %r got %s (closed: %s; raw: %s)"
+                         % ([t[0] for t in trace], line, codes[:8], c.closed, [m.raw for m in lines][:4]))
                 break
         if len(self.samples) < 4 and self.r.random() < 0.01:
             self.samples.append({"config": self.cfgname, "sequence": trace})
@@ -302,6 +302,22 @@ class GateRun:
                 self.bad("gate:rival-lost", "sequence %s: the rival connection got %s" % (list(seq), [m.raw for m in rl][:2]))
             rival.close()
         # no user may remain: wait until the state is back to the base line
+        if not self.hooks:
+            # black-box variant: the nicknames of this sequence must be gone before the next one starts
+            deadline = time.monotonic() + 5
+            gone = False
+            while time.monotonic() < deadline and not gone:
+                obs.send("ISON gate1 gate2")
+                try:
+                    ls = obs.read_until(lambda m: m.verb == "303", 5.0)
+                    gone = not ls[-1].params[-1].split()
+                except (wire.Closed, wire.Timeout):
+                    break
+                if not gone:
+                    time.sleep(0.003)
+            if not gone:
+                self.bad("gate:user-remains", "sequence %s: gate1/gate2 still registered 5 s after the connection was closed"
+                         % (list(seq),))
         if self.hooks:
             deadline = time.monotonic() + 5
             while time.monotonic() < deadline:
